@@ -279,8 +279,8 @@ namespace c18
     // more than one connected component; with the switch on, such meshes get the lexicographic strategy instead
     for(int l = 0; l <= nref; ++l) if(md.components > 1 && (pst[l] == 4 || pst[l] == 5) && c.excl("c18-cmk-disconnected")) pst[l] = 2;
     const int variant = t.range(0, 1);
-    const int vcls = t.pick({1, 1, 3, 2, 4}) ;
-    const int vcls_eff = (vcls + 2) % 5; // 0 on the tape -> small integers
+    const int vcls = t.pick({3, 2, 4, 1, 2});
+    const int vcls_eff = (vcls + 2) % 5; // 0 on the tape -> small integers; then dyadic, real, zero, unit
     // cubature: "sufficient degree" = mass matrices of both levels integrated exactly (2*kq per direction plus the
     // degree of the Jacobian determinant on non-affine hypercubes: d-1 per direction)
     int need = 2 * em.kq + ((!simplex && !md.affine) ? dim : 0);
